@@ -201,6 +201,43 @@ def op_trace(req):
     return res
 
 
+def op_calc(req):
+    """jobs = [{num: [[name, value], ...] (insertion order), expr: text between the parentheses}] -> what
+    hardcode_parse_calc hands to the evaluator for `Hardcode.calc(<expr>)` ({"ok": True, "text": ...}) or the diagnostic."""
+    from jmc.compile.header import Header
+    from jmc.compile.tokenizer import Tokenizer, Token, TokenType
+    import jmc.compile.command.utils as CU
+    seen = []
+    orig = CU.eval_expr
+
+    def capture(expr):
+        seen.append(expr)
+        return "0"
+
+    CU.eval_expr = capture
+    res = []
+    try:
+        for j in req["jobs"]:
+            Header.clear()
+            Header().number_macros = {k: v for k, v in j["num"]}
+            t = Tokenizer.__new__(Tokenizer)
+            t.macro_factory = None
+            t.allow_semicolon = False
+            t.raw_string = t.file_string = "Hardcode.calc(" + j["expr"] + ")"
+            t.file_path = "main.jmc"
+            tok = Token(TokenType.KEYWORD, 1, 1, "Hardcode.calc")
+            del seen[:]
+            try:
+                CU.hardcode_parse_calc(0, t.raw_string, tok, t)
+                res.append({"ok": True, "text": seen[0] if seen else None})
+            except BaseException as e:  # noqa
+                res.append({"ok": False, "exc": type(e).__name__, "msg": str(e)[:200]})
+    finally:
+        CU.eval_expr = orig
+        Header.clear()
+    return res
+
+
 def op_order(req):
     from jmc.compile.expression_eval import CustomOrder
     out = []
@@ -221,7 +258,7 @@ def main():
     real_stdout = sys.stdout
     sys.stdout = open(os.devnull, "w")
     out = {"corpus": op_corpus, "parse": op_parse, "trace": op_trace,
-           "has_end": lambda r: has_macro_end(), "order": op_order, "probe": op_probe}[req["op"]](req)
+           "has_end": lambda r: has_macro_end(), "order": op_order, "probe": op_probe, "calc": op_calc}[req["op"]](req)
     sys.stdout = real_stdout
     json.dump(out, sys.stdout)
 
